@@ -2,11 +2,119 @@
 {native, lxml} handlers give equal objects for every source kind.
 
 Oracle on the real code; theorems (sinks_agree, pumps_agree) in Properties/C08.v when built."""
+import concurrent.futures as cf
 import os
 
+import common
 from common import Check, run_impl, standard_proof_step, TRUSTED_COMMON, ROOT
 import genmodels as G
 from c01 import CONFIGS, NS_MAPS
+
+IMPORTS = "From XV Require Import Base.Str Model.Bind Model.Parser Model.ParserCorr Model.Reader Model.ReaderCorr."
+C08_EXTRAS = ["union_qname", "wrapper_qname", "skip_qname", "any_attrs"]
+AGREE = ["agree_native_events", "agree_native_outcome", "agree_native_recorder", "agree_lxml_events", "agree_lxml_outcome",
+         "agree_lxml_recorder", "agree_lxml_tree_events", "agree_et_events", "agree_et_outcome"]
+
+
+def reader_jobs(ck):
+    r = ck.rng
+    jobs = [{"id": i, "seed": r.randrange(1 << 30), "model": {"c08": n}} for i, n in enumerate(C08_EXTRAS)]
+    for name in ("wildtail", "anytype", "union", "wrappers", "poly"):
+        jobs.append({"id": len(jobs), "seed": r.randrange(1 << 30), "model": {"extra": name}, "n_docs": 3})
+    for _ in range(ck.n(36, 400)):
+        k = r.random()
+        sl = ["F1"] if k < 0.3 else (["F1", "F2"] if k < 0.5 else (["F1", "F2", "F3"] if k < 0.75 else ["F1", "F4"]))
+        jobs.append({"id": len(jobs), "seed": r.randrange(1 << 30), "model": {"gen": {"slices": sl}}, "n_docs": ck.n(3, 4)})
+    return jobs
+
+
+def run_reader_jobs(jobs, chunk=8, timeout=1500):
+    chunks = [c for c in (jobs[i::chunk] for i in range(chunk)) if c]
+
+    def one(c):
+        try:
+            return run_impl("impl_c08.py", {"jobs": c}, timeout=timeout)
+        except Exception as e:  # noqa
+            return {"dt_table": None, "jobs": [{"id": j["id"], "seed": j["seed"], "model": j["model"], "cases": [],
+                                                "crashed": f"driver process failed: {e!r}"[:3000]} for j in c]}
+    with cf.ThreadPoolExecutor(max_workers=len(chunks) or 1) as ex:
+        outs = list(ex.map(one, chunks))
+    tables = [o["dt_table"] for o in outs if o.get("dt_table")]
+    res = {"dt_table": tables[0] if tables else "(@nil (qname * option (ptype * option str * option ptype)))", "jobs": []}
+    for o in outs:
+        res["jobs"] += o["jobs"]
+    res["jobs"].sort(key=lambda j: j["id"])
+    return res
+
+
+def reader_correspondence(ck, fut):
+    """handler models (Model/Reader.v) <-> the REAL handlers on printed documents; oracle + guards judged in Coq"""
+    res = fut.result()
+    defs = [f"Definition dt_table := {res['dt_table']}."]
+    terms, meta = [], []
+    stats = {"jobs": len(res["jobs"]), "cases": 0, "unsupported": 0, "skipped_jobs": 0, "decorations": {}}
+    for j in res["jobs"]:
+        if j.get("crashed"):
+            ck.failure("harness-driver-crashed", f"impl_c08.py crashed on {j['model']} seed {j['seed']}: {j['crashed'][-400:]}",
+                       {"job": {"seed": j["seed"], "model": j["model"]}})
+            continue
+        if j.get("skipped") or not j.get("universe") or not j.get("conv"):
+            stats["skipped_jobs"] += 1
+            continue
+        defs.append(f"Definition u_{j['id']} : universe := {j['universe']}.")
+        defs.append(f"Definition tbl_{j['id']} : conv_table := {j['conv']}.")
+        defs.append(f"Definition nd_{j['id']} : list (cls * list str) := {j['nodefault']}.")
+        for c in j["cases"]:
+            if c.get("harness_problem"):
+                ck.failure("harness-printer", c["harness_problem"], {"job": {"seed": j["seed"], "model": j["model"]}, "xml": c.get("xml")})
+            elif c.get("term"):
+                terms.append(c["term"])
+                meta.append((j, c))
+                for w in c["what"]:
+                    stats["decorations"][w] = stats["decorations"].get(w, 0) + 1
+            else:
+                stats["unsupported"] += 1
+    checks = {k: k for k in AGREE + ["oracle_handlers_agree", "oracle_et_agrees", "guard_handlers"]}
+    checks["explained_F7"] = "fun x => negb (explained_by_union_decls x)"
+    checks["explained_F1"] = "fun x => negb (et_models_differ x)"
+    bad = common.coq_bad_matrix("c08_reader", IMPORTS, "\n".join(defs), "rcase", checks, terms)
+
+    def rp(i):
+        j, c = meta[i]
+        return {"job": {"seed": j["seed"], "model": j["model"]}, "source": j.get("source"), "xml": c["xml"], "cfg": c["cfg"],
+                "what": c["what"], "summary": c["summary"]}
+    for k in AGREE:
+        for i in bad[k]:
+            j, c = meta[i]
+            ck.failure("corr-reader-" + k[6:], f"handler model and implementation disagree ({k}) on {c['xml'][:300]!r} cfg={c['cfg']} "
+                                               f"impl={c['summary']}", rp(i))
+    outside = set(bad["guard_handlers"])
+    f7 = set(bad["explained_F7"])
+    f1 = set(bad["explained_F1"])
+    for i in bad["oracle_handlers_agree"]:
+        j, c = meta[i]
+        if i in f7:
+            cls = "handlers-differ-union-nested-declarations"
+        elif i in outside:
+            cls = "handlers-differ-outside-guard-unexplained"
+        else:
+            cls = "handlers-differ-inside-guard"
+        ck.failure(cls, f"native and lxml handlers disagree on {c['xml'][:300]!r}: {c['summary']['native']} vs {c['summary']['lxml']}", rp(i))
+    for i in bad["oracle_et_agrees"]:
+        j, c = meta[i]
+        cls = "handlers-differ-native_et" if i in f1 else "handlers-differ-native_et-unexplained"
+        ck.failure(cls, f"native handler on an ElementTree element disagrees with the lxml handler on the text (model "
+                        f"{'reproduces it: regenerated prefixes' if i in f1 else 'does NOT reproduce it'}) {c['xml'][:300]!r}: "
+                        f"{c['summary']['et']} vs {c['summary']['lxml']}", rp(i))
+    for i, (j, c) in enumerate(meta):
+        if not c.get("lxml_tree_same_outcome", True):
+            ck.failure("handlers-differ-lxml_tree_plain", f"lxml handler: parsed tree and bytes give different outcomes on {c['xml'][:300]!r}", rp(i))
+    stats["cases"] = len(terms)
+    stats["guard_true"] = len(terms) - len(outside)
+    stats["handlers_differ"] = len(bad["oracle_handlers_agree"])
+    stats["et_differs"] = len(bad["oracle_et_agrees"])
+    stats["events"] = sum(c.get("n_events", 0) for _, c in meta)
+    return stats, [{"xml": c["xml"][:200], "what": c["what"], "cfg": c["cfg"]} for _, c in meta[:3]]
 
 
 # maps that need cleaning (namespaces.clean_prefixes): '' key, the same uri as default and prefixed, empty uri
@@ -17,8 +125,13 @@ def run(ck: Check):
     ck.level = "proof"
     r = ck.rng
     obligations, discharged, axioms = 0, 0, []
+    pool = cf.ThreadPoolExecutor(max_workers=1)
+    rjobs = reader_jobs(ck)
+    fut = pool.submit(run_reader_jobs, rjobs)          # the implementation runs while the proofs are checked
     if os.path.exists(os.path.join(ROOT, "coq", "Properties", "C08.v")):
-        obligations, discharged, axioms = standard_proof_step(ck)
+        obligations, discharged, axioms = standard_proof_step(ck, extra_targets=["Model/ReaderCorr.vo"])
+    else:
+        common.make(["Model/ReaderCorr.vo"])
     jobs = []
     for k in range(ck.n(150, 2000)):
         m = G.gen_model(r, slices=r.choice([("F1",), ("F1", "F2"), ("F1", "F2", "F3"), ("F1", "F4")]))
@@ -69,9 +182,27 @@ def run(ck: Check):
                         g = "lxml_tree_plain"
                     ck.failure("handlers-differ-" + g, f"handlers/sources disagree: {ds}",
                                {"model_src": job["src"], "instance": job["instances"][case["i"]], "case": case, "result": res})
-    ck.cov["evaluations"] = n
-    ck.cov["distinct_nontrivial"] = n
-    ck.cov["rule"] = "writers: (model, instance, config, user map) -> 3 infosets compared; handlers: (model, instance) -> 2 handlers x 7 source kinds compared"
-    ck.cov["input_distribution"] = stats
-    ck.cov["samples"] = [{"case": jobs[0]["cases"][0]}]
-    return ck.finish(obligations=obligations, discharged=discharged, checker_cmd="coqc", trusted_base=TRUSTED_COMMON)
+    try:
+        rstats, rsamples = reader_correspondence(ck, fut)
+    except common.BuildError as e:
+        ck.broken_obligation("corr-reader:" + e.target, e.log)
+        rstats, rsamples = {"cases": 0}, []
+    ck.cov["evaluations"] = n + rstats["cases"]
+    ck.cov["distinct_nontrivial"] = n + rstats["cases"]
+    ck.cov["rule"] = ("reader correspondence: one case = (model, printed document with its declarations, parser options) -> events, outcome and "
+                      "recorder map of both REAL handlers (+ lxml tree and ElementTree sources) compared in Coq with Model/Reader.v, oracle and "
+                      "theorem guard judged in Coq; writers: (model, instance, config, user map) -> 3 infosets compared; "
+                      "handlers: (model, instance) -> 2 handlers x 7 source kinds compared")
+    ck.cov["input_distribution"] = dict(stats, reader=rstats)
+    ck.cov["samples"] = rsamples + [{"case": jobs[0]["cases"][0]}]
+    return ck.finish(obligations=obligations, discharged=discharged,
+                     checker_cmd="make -C coq Properties/C08.vo && coqc -Q coq XV coq/Properties/C08.v (Print Assumptions)",
+                     trusted_base=TRUSTED_COMMON + [
+                         "the tokenisers (expat / libxml2): event order and element.nsmap are modelled by Reader.flatten / lxml_nsmap and "
+                         "tied by the reader correspondence, not verified; source kinds (bytes/str/path/file object) are oracle-only",
+                         "harness/impl_c08.py document printer and harness/bind_export.py (real events/objects -> Gallina)",
+                         "primitive converter taken as the recorded table of the real run (property C05 proves the converter itself)",
+                         "axioms: " + (", ".join(axioms) or "none (all theorems closed under the global context)")],
+                     assumptions=["element and attribute names in parser events are non-empty",
+                                  "one XmlMeta per class (metadata cache keyed by class: property C14's subject)",
+                                  "documents are namespace-well-formed (a prefix is bound to a non-empty uri; only xmlns=\"\" undeclares)"])
